@@ -8,7 +8,7 @@ EXTENDS Integers, Sequences, FiniteSets
 CONSTANTS NP, NT
 VARIABLES cur, state, cdone
 vars == <<cur, state, cdone>>
-Tasks == {<<i, k>> : i \in 1..NP, k \in 1..3} \cap {t \in (1..NP) \X (1..3) : t[2] <= NT[t[1]]}
+Tasks == {t \in (1..NP) \X (1..3) : t[2] <= NT[t[1]]}
 
 Init == cur = 1 /\ state = [t \in Tasks |-> "idle"] /\ cdone = 0
 TaskStart(t) == t[1] = cur /\ state[t] = "idle" /\ state' = [state EXCEPT ![t] = "run"] /\ UNCHANGED <<cur, cdone>>
